@@ -337,16 +337,22 @@ def rule_key(rep, prog, m, fn, cache_name, rule='R-KEY', enclosing=None):
 
 def mat(e, singles):
     e = inline(e, singles, depth=3) if singles else e
+    if isinstance(e, ast.Attribute) and e.attr == 'T':
+        return ('transpose', mat(e.value, None))          # X.T
     if isinstance(e, ast.Call):
-        nm = _last(dotted(e.func))
-        if nm == 'dot' and len(e.args) == 2:
+        nm = _last(dotted(e.func)) if dotted(e.func) else (e.func.attr if isinstance(e.func, ast.Attribute) else None)
+        root = e.func.value if isinstance(e.func, ast.Attribute) else None
+        is_module = isinstance(root, (ast.Name, ast.Attribute)) and ast.unparse(root) in ('numpy', 'np', 'numpy.linalg', 'np.linalg', 'scipy.linalg', 'linalg')
+        # method forms: X.dot(Y), X.trace(), X.transpose()
+        args = list(e.args) if (root is None or is_module) else [root] + list(e.args)
+        if nm == 'dot' and len(args) == 2:
             out = []
-            for a in e.args:
+            for a in args:
                 r = mat(a, None)
                 out.extend(r[1] if isinstance(r, tuple) and r[0] == 'dot' else [r])
             return ('dot', out)
-        if nm in ('inv', 'transpose', 'trace', 'outer', 'len'):
-            return (nm,) + tuple(mat(a, None) for a in e.args)
+        if nm in ('inv', 'transpose', 'trace', 'outer', 'len') and (nm != 'transpose' or len(args) == 1):
+            return (nm,) + tuple(mat(a, None) for a in args)
     if isinstance(e, ast.BinOp) and isinstance(e.op, ast.Div):
         return ('/', mat(e.left, None), mat(e.right, None))
     if isinstance(e, ast.Subscript):
